@@ -153,12 +153,109 @@ func checkC08(c *Ctx, r *Report) {
 	scopeRules(c, r, resolveRef, resolve, newFieldSet)
 
 	// ---- R08e ----
-	r.Rule("R08e", "values whose toConfig yields a live (non-fresh) config answer canCache() with the constant false; cachedValue stores only under v != nil && v.canCache()", 3)
+	r.Rule("R08e", "values whose toConfig yields a live (non-fresh) config answer canCache() with the constant false; cachedValue stores under v != nil && v.canCache() and under no further condition", 4)
 	cacheRules(c, r)
 
 	// ---- R08g ----
 	r.Rule("R08g", "resolveEnv returns a nil error only with the results of a resolver call whose error was nil; every other return carries a non-nil error", 2)
 	resolveEnvRule(c, r, "R08g")
+
+	// ---- R08h ----
+	r.Rule("R08h", "what cfgDynamic.getValue hands to the per-call cache (and returns) is never itself a dynamic value: a reference to a reference is followed to its end, so that the end of the chain is cached and a second look at the setting within one field does not re-register the first hop", 1)
+	chainRule(c, r, "R08h")
+}
+
+// chainRule: in the function literal that cfgDynamic.getValue passes to cachedValue, every return of
+// a value with a possibly nil error is reached only over the failing edge of a `v.(*cfgDynamic)` test
+// on the returned value, or over an err != nil edge.
+func chainRule(c *Ctx, r *Report, rule string) {
+	gv := c.Method("", "cfgDynamic", "getValue")
+	dynT := c.Named("", "cfgDynamic")
+	var lits []*ssa.Function
+	for _, a := range gv.AnonFuncs {
+		lits = append(lits, a)
+	}
+	if len(lits) != 1 {
+		r.add(rule, c.FnName(gv), "chain followed", c.Pos(gv.Pos()), Undecided, true, fmt.Sprintf("expected one function literal in cfgDynamic.getValue, found %d", len(lits)))
+		return
+	}
+	fn := lits[0]
+	for _, ret := range Returns(fn) {
+		if len(ret.Results) != 2 {
+			continue
+		}
+		v := RetVal(ret, 0)
+		if IsNilConst(v) {
+			continue
+		}
+		// the result of getValue itself is not dynamic (inductively)
+		inductive := true
+		for _, src := range append(Sources(v), v) {
+			ex, isEx := src.(*ssa.Extract)
+			if !isEx || ex.Index != 0 {
+				inductive = false
+				break
+			}
+			call, isCall := ex.Tuple.(*ssa.Call)
+			if !isCall || call.Call.StaticCallee() != gv {
+				inductive = false
+				break
+			}
+		}
+		if inductive {
+			r.OK(rule, c.FnName(fn), "chain followed", c.Pos(ret.Pos()), "returns the result of getValue on the next hop")
+			continue
+		}
+		ok := true
+		why := ""
+		// every edge into the return block must exclude "v is a *cfgDynamic and err == nil"
+		var walk func(b *ssa.BasicBlock, seen map[*ssa.BasicBlock]bool) bool
+		walk = func(b *ssa.BasicBlock, seen map[*ssa.BasicBlock]bool) bool {
+			if seen[b] {
+				return true
+			}
+			seen[b] = true
+			if len(b.Preds) == 0 {
+				return false
+			}
+			for _, p := range b.Preds {
+				ifi, isIf := lastInstr(p).(*ssa.If)
+				if isIf && p.Succs[0] != p.Succs[1] {
+					truth := p.Succs[0] == b
+					// ok-result of a comma-ok assertion to *cfgDynamic, taken false
+					if ex, isEx := ifi.Cond.(*ssa.Extract); isEx && ex.Index == 1 && !truth {
+						if ta, isTA := ex.Tuple.(*ssa.TypeAssert); isTA && ta.CommaOk {
+							if pt, isP := ta.AssertedType.(*types.Pointer); isP && types.Identical(pt.Elem(), dynT) {
+								continue
+							}
+						}
+					}
+					// err == nil taken false / err != nil taken true
+					if bo, isB := ifi.Cond.(*ssa.BinOp); isB && (bo.Op == token.EQL || bo.Op == token.NEQ) && (IsNilConst(bo.Y) || IsNilConst(bo.X)) {
+						other := bo.X
+						if IsNilConst(bo.X) {
+							other = bo.Y
+						}
+						if other.Type().String() == "error" || isNamed(other.Type(), modPath, "Error") {
+							if (bo.Op == token.NEQ) == truth {
+								continue
+							}
+						}
+					}
+				}
+				if !walk(p, seen) {
+					return false
+				}
+			}
+			return true
+		}
+		if !walk(ret.Block(), map[*ssa.BasicBlock]bool{}) {
+			ok = false
+			why = "a path reaches the return without a failed `v.(*cfgDynamic)` test or a non-nil error"
+		}
+		r.Check(ok, rule, c.FnName(fn), "chain followed", c.Pos(ret.Pos()), "the returned value is not a dynamic value unless an error is returned with it",
+			"cfgDynamic.getValue can cache and return a value that is itself a reference ("+why+"): such a result is not cacheable, every further look at the setting within one field resolves the first hop again and the cycle guard reports a cyclic reference for a plain chain a -> b -> c")
+	}
 }
 
 func recvName(f *ssa.Function) string {
@@ -949,7 +1046,21 @@ func loopOf(fn *ssa.Function, b *ssa.BasicBlock) map[*ssa.BasicBlock]bool {
 	return out
 }
 
+// loopHeader: the block of the cycle that dominates all its blocks (its single entry); for an
+// irreducible cycle the block with the lowest index.
 func loopHeader(lp map[*ssa.BasicBlock]bool) *ssa.BasicBlock {
+	for b := range lp {
+		all := true
+		for x := range lp {
+			if !b.Dominates(x) {
+				all = false
+				break
+			}
+		}
+		if all {
+			return b
+		}
+	}
 	var best *ssa.BasicBlock
 	for b := range lp {
 		if best == nil || b.Index < best.Index {
@@ -1014,6 +1125,47 @@ func cacheRules(c *Ctx, r *Report) {
 			}
 		}
 		r.Check(okc, "R08e", c.FnName(cv), "store under canCache", c.Pos(mu.Pos()), "cache update dominated by v.canCache()", "the per-call cache stores values without asking canCache()")
+		// ... and under nothing more than that: every cacheable result is cached. A setting whose
+		// evaluation is not cached is resolved again by the next look at it within the same field
+		// (castArr: the value, then its length) and meets its own registration in the cycle guard.
+		var extra []string
+		nb := newNF(c)
+		for _, cd := range ExpandConds(DomConds(mu.Block())) {
+			v, truth := cd.V, cd.Truth
+			for {
+				u, isU := v.(*ssa.UnOp)
+				if !isU || u.Op != token.NOT {
+					break
+				}
+				v, truth = u.X, !truth
+			}
+			switch x := v.(type) {
+			case *ssa.Phi:
+				continue // expanded into its parts
+			case *ssa.Call:
+				if x.Call.IsInvoke() && x.Call.Method.Name() == "canCache" && truth {
+					continue
+				}
+			case *ssa.BinOp:
+				if (x.Op == token.NEQ && truth || x.Op == token.EQL && !truth) && (IsNilConst(x.Y) || IsNilConst(x.X)) {
+					other := x.X
+					if IsNilConst(x.X) {
+						other = x.Y
+					}
+					if isNamed(other.Type(), modPath, "value") {
+						continue // v != nil
+					}
+				}
+			case *ssa.Extract:
+				// the cache-miss test of the lookup
+				if _, isLookup := x.Tuple.(*ssa.Lookup); isLookup && x.Index == 1 && !truth {
+					continue
+				}
+			}
+			extra = append(extra, fmt.Sprintf("%s=%v", clip(nb.Of(v).String(), 80), truth))
+		}
+		r.Check(len(extra) == 0, "R08e", c.FnName(cv), "every cacheable result is cached", c.Pos(mu.Pos()), "the store is guarded by the cache miss, v != nil and v.canCache() only",
+			"the cache update is restricted by a further condition ("+strings.Join(extra, "; ")+"): results it excludes are evaluated again by every look at the setting within one field, and the second evaluation finds the first one's entry in the cycle guard (false cyclic-reference error, e.g. for a reference to a null setting unpacked into a list)")
 	})
 	if nst == 0 {
 		r.Trivial("R08e", c.FnName(cv), "store under canCache", c.Pos(cv.Pos()), "cachedValue stores nothing")
